@@ -115,6 +115,13 @@ type SlSl struct{ V [][]int32 }
 type SlSlStr struct{ V [][]string }
 type SlMap struct{ V []map[string]int32 }
 type SlIface struct{ V []interface{} }
+
+// []T and []*T in one type: the list type names of the two collide
+type BothSl struct {
+	A []Inner
+	B []*Inner
+}
+
 type TwoSlices struct {
 	A []int32
 	S []string
@@ -273,7 +280,7 @@ var Types = []Entry{
 	e(SlUint{}, "slice"), e(SlUint16{}, "slice"), e(SlUint32{}, "slice"), e(SlUint64{}, "slice"),
 	e(SlF32{}, "slice"), e(SlF64{}, "slice"), e(SlStr{}, "slice"), e(SlBin{}, "slice"), e(SlTime{}, "slice"),
 	e(SlStruct{}, "slice"), e(SlPtr{}, "slice"), e(SlSl{}, "slice", "slice-of-slice"), e(SlSlStr{}, "slice", "slice-of-slice"),
-	e(SlMap{}, "slice", "slice-of-map"), e(SlIface{}, "slice", "iface"), e(TwoSlices{}, "slice"),
+	e(SlMap{}, "slice", "slice-of-map"), e(SlIface{}, "slice", "iface"), e(TwoSlices{}, "slice"), e(BothSl{}, "slice", "slice-ptr-collision"),
 	e(MpStrStr{}, "map"), e(MpStrI32{}, "map"), e(MpStrI64{}, "map"), e(MpStrInt{}, "map"), e(MpStrF64{}, "map"), e(MpStrBool{}, "map"),
 	e(MpStrBin{}, "map"), e(MpStrTime{}, "map"), e(MpStrStruct{}, "map"), e(MpStrPtr{}, "map"), e(MpStrSl{}, "map"), e(MpStrMp{}, "map"),
 	e(MpI32Str{}, "map"), e(MpI64Str{}, "map"), e(MpIface{}, "map", "iface"),
